@@ -203,6 +203,27 @@ def gen_c19(rng: random.Random) -> dict:
     }
 
 
+def gen_stale_handle(rng: random.Random) -> dict:
+    """Session 1 with a subscription that hands out an unsubscribe handle; the session ends; the handle is used while the next
+    attempt of the same client is at one of its stages (socket open, frame layer ready with hello/login outstanding, connected)."""
+    client: dict = {"addresses": ["10.0.0.5"], "keepalive": 20.0}
+    device: dict = {}
+    gen_transport(rng, client, device, noise_p=0.25)
+    kind = pick(rng, ["ble_adv", "ble_raw", "voice", "ble_adv", "ble_raw"])
+    login = rng.random() < 0.5
+    slow = pick(rng, [0.5, 2.0])
+    # first session answered at once, the second one slowly (or never)
+    device["replies"] = {("ConnectRequest" if login else "HelloRequest"): ["default", pick(rng, ["silent", {"default": True, "delay": slow}])]}
+    ender = pick(rng, [[{"do": "disconnect", "force": rng.random() < 0.5}], [{"do": "sleep", "d": 1.0}]])
+    steps = [{"do": "connect", "login": login}, {"do": "sub", "kind": kind, "tag": "h"}] + ender + [{"do": "sleep", "d": 0.2}, {"do": "connect", "login": login}, {"do": "sleep", "d": 1.0}]
+    events: list = []
+    if ender[0]["do"] == "sleep":
+        events.append({"at": {"on": "op_end", "match": {"actor": "a0", "do": "sub"}, "delay": 0.3}, "do": "fault", "kind": pick(rng, ["fin", "rst"]), "latency": 0.0})
+    events.append({"at": {"on": "state", "match": {"new": pick(rng, ["SOCKET_OPENED", "HANDSHAKE_COMPLETE", "HANDSHAKE_COMPLETE", "HANDSHAKE_COMPLETE"])}, "nth": 2, "delay": pick(rng, [0.0, 0.001, 0.05, 0.3])}, "do": "start_actor", "actor": "worker", "phase": pick(rng, ["pre", "post"])})
+    actors = [{"id": "a0", "at": {"t": 0.0}, "steps": steps}, {"id": "worker", "at": "manual", "steps": [{"do": "unsub", "tag": "h"}]}]
+    return {"family": "client-history", "kind": "stale-handle", "knobs": gen_knobs(rng), "client": client, "device": device, "net": {"cuts": gen_cuts(rng), "c2d_latency": pick(rng, [0.0, 0.001]), "d2c_latency": [pick(rng, [0.0, 0.001])], "connect": {"10.0.0.5": [{"outcome": "ok", "latency": pick(rng, [0.0, 0.001, 0.05])}]}}, "actors": actors, "events": events, "end": 200.0}
+
+
 class C19(CheckBase):
     pid = "C19"
     level = "exploration"
@@ -210,7 +231,10 @@ class C19(CheckBase):
     thorough_cases = 120000
 
     def cases(self, rng: random.Random, tier: str, idx: int) -> Iterable[dict]:
-        yield gen_c19(rng)
+        if idx % 10 == 7:
+            yield gen_stale_handle(rng)
+        else:
+            yield gen_c19(rng)
 
     def oracle(self, run: Any, scn: dict) -> list[Violation]:
         MODEL.clear()
